@@ -51,21 +51,21 @@ Qed.
 Lemma local_update_get_same : forall n v ss x,
   local_get n ss = Some x -> local_get n (local_update n v ss) = Some v.
 Proof.
-  intros n v. induction ss as [|s ss IH]; intros x H; cbn [local_get local_update] in *.
+  intros n v. induction ss as [|[fr s] ss IH]; intros x H; cbn [local_get local_update] in *.
   - discriminate.
   - destruct (assoc_get n s) as [y|] eqn:E; cbn [local_get].
     + rewrite assoc_set_get_same. reflexivity.
-    + rewrite E. apply (IH x). exact H.
+    + destruct fr; [discriminate|]. cbn [local_get]. rewrite E. apply (IH x). exact H.
 Qed.
 
 Lemma local_update_get_other : forall n v m ss,
   str_eqb n m = false -> local_get m (local_update n v ss) = local_get m ss.
 Proof.
-  intros n v m ss H. induction ss as [|s ss IH]; cbn [local_get local_update].
+  intros n v m ss H. induction ss as [|[fr s] ss IH]; cbn [local_get local_update].
   - reflexivity.
   - destruct (assoc_get n s) as [y|] eqn:E; cbn [local_get].
     + rewrite (assoc_set_get_other n v m s H). reflexivity.
-    + rewrite IH. reflexivity.
+    + destruct fr; cbn [local_get]; [reflexivity|]. rewrite IH. reflexivity.
 Qed.
 
 (* ------------------------------------------------------------------ *)
@@ -188,13 +188,13 @@ Lemma declare_other : forall e n v m,
   str_eqb n m = false -> env_get (env_declare e n v) m = env_get e m.
 Proof.
   intros e n v m H. unfold env_declare.
-  destruct (scopes e) as [|s ss] eqn:E; [reflexivity|].
+  destruct (scopes e) as [|[fr s] ss] eqn:E; [reflexivity|].
   unfold env_get. cbn [scopes globals]. rewrite E. cbn [local_get].
   rewrite (assoc_set_get_other n v m s H). reflexivity.
 Qed.
 
 Lemma declare_globals : forall e n v, globals (env_declare e n v) = globals e.
-Proof. intros e n v. unfold env_declare. destruct (scopes e); reflexivity. Qed.
+Proof. intros e n v. unfold env_declare. destruct (scopes e) as [|[fr s] ss]; reflexivity. Qed.
 
 Lemma set_global : forall e n v,
   local_get n (scopes e) = None ->
@@ -222,4 +222,50 @@ Proof.
   - destruct (exec o consts funcs fns obj fuel (b :: main) 0
                 (mkM [] (env_truncate (menv m) 0) (trace m) (polls m))) as [out1 m1].
     injection H as _ <-. cbn [menv]. apply truncate_zero_scopes.
+Qed.
+
+(* ------------------------------------------------------------------ *)
+(* C06: the scope of a function call hides the callers' locals *)
+
+(* inside a fresh call frame nothing is local: not even what the callers declared *)
+Lemma frame_no_locals : forall e n, local_get n (scopes (env_push_frame e)) = None.
+Proof. reflexivity. Qed.
+
+(* a name read in a fresh call frame is read from the globals, whatever the
+   callers' scopes hold *)
+Lemma frame_hides_callers : forall e n,
+  env_get (env_push_frame e) n = assoc_get n (globals e).
+Proof. reflexivity. Qed.
+
+(* an assignment in a fresh call frame binds a global; the frame and every
+   scope of the callers are left exactly as they were *)
+Lemma assignment_in_callee_is_global : forall e n v,
+  env_set (env_push_frame e) n v =
+  mkEnv (assoc_set n v (globals e)) (scopes (env_push_frame e)).
+Proof. reflexivity. Qed.
+
+(* the same below any number of parameters / locals / loop scopes of the
+   callee: what is found is found without looking past the frame *)
+Lemma local_get_frame : forall n inner s outer1 outer2,
+  local_get n (inner ++ (true, s) :: outer1) = local_get n (inner ++ (true, s) :: outer2).
+Proof.
+  intros n inner s outer1 outer2. induction inner as [|[fr x] inner IH]; cbn [app local_get].
+  - reflexivity.
+  - rewrite IH. reflexivity.
+Qed.
+
+Lemma local_update_frame : forall n v inner s outer,
+  exists inner' s', local_update n v (inner ++ (true, s) :: outer) = inner' ++ (true, s') :: outer /\
+                    List.length inner' = List.length inner.
+Proof.
+  intros n v inner s outer. induction inner as [|[fr x] inner IH]; cbn [app local_update].
+  - destruct (assoc_get n s).
+    + exists [], (assoc_set n v s). split; reflexivity.
+    + exists [], s. split; reflexivity.
+  - destruct (assoc_get n x).
+    + exists ((fr, assoc_set n v x) :: inner), s. split; reflexivity.
+    + destruct fr.
+      * exists ((true, x) :: inner), s. split; reflexivity.
+      * destruct IH as (inner' & s' & -> & Hl). exists ((false, x) :: inner'), s'.
+        split; [reflexivity|]. cbn [List.length]. rewrite Hl. reflexivity.
 Qed.
